@@ -5,6 +5,7 @@ import (
 	"os"
 	"path/filepath"
 	"reflect"
+	"strconv"
 	"strings"
 	"text/template"
 	"time"
@@ -437,7 +438,7 @@ func generatePrefaultValue(value string, fieldType reflect.Type) string {
 func generateTypedValue(method, value string, fieldType reflect.Type) string {
 	switch fieldType.Kind() { //nolint:exhaustive // only special-cased types need distinct formatting
 	case reflect.String:
-		return fmt.Sprintf(`.%s("%s")`, method, value)
+		return fmt.Sprintf(".%s(%s)", method, strconv.Quote(value))
 	case reflect.Slice, reflect.Array:
 		return generateSliceValue(method, value, fieldType)
 	case reflect.Map:
